@@ -8,6 +8,9 @@ import (
 	"fmt"
 	"os"
 	"runtime/debug"
+	"strings"
+
+	gleececmd "github.com/gopher-fleece/gleece/v2/cmd"
 
 	"verif/harness/monitors/c15"
 	"verif/harness/monitors/c16"
@@ -35,6 +38,32 @@ func main() {
 
 	var res *report.Result
 	switch mon {
+	case "genseq":
+		// several CLI invocations in ONE process (library / watch-mode use): -config is a comma separated list
+		if err := os.Chdir(*dir); err != nil {
+			fmt.Fprintln(os.Stderr, err)
+			os.Exit(2)
+		}
+		type step struct {
+			Config string `json:"config"`
+			Err    string `json:"err,omitempty"`
+		}
+		var steps []step
+		for _, cfg := range strings.Split(*config, ",") {
+			r := gleececmd.ExecuteWithArgs([]string{"generate", "spec-and-routes", "-c", cfg, "--no-banner"}, true)
+			st := step{Config: cfg}
+			if r.Error != nil {
+				st.Err = r.Error.Error()
+			}
+			steps = append(steps, st)
+		}
+		b, _ := json.Marshal(steps)
+		if *out != "" {
+			_ = os.WriteFile(*out, b, 0o644)
+		} else {
+			fmt.Println(string(b))
+		}
+		return
 	case "validate", "rerun":
 		var v any
 		if mon == "validate" {
